@@ -4,9 +4,9 @@ package checks
 //
 // Engine E1 over the real stack: websocket.Stream attached (VerifAttach) to a real AsyncAdapter on a real
 // socketpair net.Conn; the raw peer end is written with wsref frames and its input parsed by wsref.
-// Actions: start AsyncNextFrame / AsyncNextMessage (at most one read in flight), AsyncWrite(m_k) (at most one
-// application write in flight — the concurrency the property grants), AsyncClose, peer data / ping / close,
-// poll. Handler behaviour of a read callback is a deviation: start the next read, start a write, both.
+// Actions: start AsyncNextFrame / AsyncNextMessage (at most one read in flight), AsyncWrite(m_k) (up to three,
+// also while an earlier one is in flight), AsyncClose (also while a write is in flight), peer data / ping /
+// close, poll. Handler behaviour of a read callback is a deviation: start the next read, start a write, both.
 // Oracle (no timing, no model of internal ordering): every callback at most once at any time; after the loop
 // has been run to quiescence every AsyncWrite/AsyncClose callback ran exactly once; the frames delivered to
 // read callbacks (and to the control callback) are a prefix of what the peer sent, in order, byte-identical;
@@ -36,24 +36,24 @@ type wsCall struct {
 }
 
 type c17Env struct {
-	x        *engine.X
-	ioc      *sonic.IO
-	epfd     int
-	ws       *websocket.Stream
-	peer     int
-	sent     []wsref.Frame // inbound frames the peer sent
-	consumed []wsref.Frame // frames handed to read callbacks / the control callback, in order
-	reads    []*wsCall
-	writes   []*wsCall
-	wpay     [][]byte
-	readInfl *wsCall
-	closeC   *wsCall
-	out      []byte
-	buf      []byte
-	pings    int
+	x          *engine.X
+	ioc        *sonic.IO
+	epfd       int
+	ws         *websocket.Stream
+	peer       int
+	sent       []wsref.Frame // inbound frames the peer sent
+	consumed   []wsref.Frame // frames handed to read callbacks / the control callback, in order
+	reads      []*wsCall
+	writes     []*wsCall
+	wpay       [][]byte
+	readInfl   *wsCall
+	closeC     *wsCall
+	out        []byte
+	buf        []byte
+	pings      int
 	peerClosed bool
-	eos      bool // a read reported an error (end of stream or failure)
-	hdepth   int
+	eos        bool // a read reported an error (end of stream or failure)
+	hdepth     int
 }
 
 func (e *c17Env) drainPeer() {
@@ -140,7 +140,7 @@ func (e *c17Env) behave() {
 	defer func() { e.hdepth-- }()
 	opts := []string{"nothing"}
 	canRead := e.readInfl == nil && len(e.reads) < 4
-	canWrite := !e.writeInFlight() && len(e.writes) < 2
+	canWrite := len(e.writes) < 3
 	if canRead {
 		opts = append(opts, "read")
 	}
@@ -211,10 +211,13 @@ func c17Body(depth int) func(x *engine.X) {
 				as = append(as, act{"AsyncNextFrame", func() { e.startRead(false) }})
 				as = append(as, act{"AsyncNextMessage", func() { e.startRead(true) }})
 			}
-			if !e.writeInFlight() && len(e.writes) < 2 {
+			// Further writes may be started while one is still in flight: the oracle only demands that every
+			// callback runs exactly once (with or without an error) and that what was reported as written is on
+			// the wire once and in order, so an implementation that refuses overlapping writes passes too.
+			if len(e.writes) < 3 {
 				as = append(as, act{"AsyncWrite", func() { e.startWrite() }})
 			}
-			if !e.writeInFlight() && e.closeC == nil {
+			if e.closeC == nil {
 				as = append(as, act{"AsyncClose", func() {
 					cc := &wsCall{kind: "AsyncClose"}
 					e.closeC = cc
